@@ -15,7 +15,7 @@ Ltac break_goal :=
   | |- context [match ?x with _ => _ end] => destruct x eqn:?
   | |- context [if ?x then _ else _] => destruct x eqn:?
   end.
-Ltac inv H := inversion H; subst; clear H.
+Ltac inv H := first [discriminate H | injection H; clear H; intros; subst].
 
 (* commands that go through a write transaction *)
 Definition is_write (c : cmd) : bool :=
